@@ -227,3 +227,33 @@ func alias(prop, id, targetID, why string) {
 			c.Obls = append(c.Obls, sub.Obls...)
 		}})
 }
+
+// straightHelpers returns a resolver for flow.Graph.InlineStraight: calls of functions of the same package
+// whose body is at most 6 statements of plain expression/assignment/inc-dec statements.
+func straightHelpers(f *fn) func(call *ast.CallExpr) []ast.Stmt {
+	return func(call *ast.CallExpr) []ast.Stmt {
+		cf := flow.CalleeFunc(f.Info, call)
+		if cf == nil || cf.Pkg() != f.Obj.Pkg() {
+			return nil
+		}
+		d := f.P.Decl(cf)
+		if d == nil || d.Body == nil || len(d.Body.List) == 0 || len(d.Body.List) > 6 {
+			return nil
+		}
+		for _, st := range d.Body.List {
+			switch st.(type) {
+			case *ast.ExprStmt, *ast.AssignStmt, *ast.IncDecStmt:
+			default:
+				return nil
+			}
+		}
+		return d.Body.List
+	}
+}
+
+// InlinedGraph builds a fresh graph of f with small straight-line helpers of the same package inlined.
+func (f *fn) InlinedGraph() *flow.Graph {
+	g := flow.New(f.P.Fset, f.Info, f.Decl.Body)
+	g.InlineStraight(straightHelpers(f))
+	return g
+}
